@@ -149,16 +149,41 @@ func fromLin(l *Lin) *Term {
 	if len(l.atoms) == 1 && l.coefs[0] == 1 && l.c == 0 {
 		return l.atoms[0]
 	}
+	// positive unit coefficients first, so that "a - b" prints as bvsub (no 64-bit multiplier for -1)
 	var acc *Term
-	for i, a := range l.atoms {
-		x := a
-		if l.coefs[i] != 1 {
-			x = mk("bvmul", 64, 0, "", 0, 0, CI(l.coefs[i]), a)
+	order := make([]int, 0, len(l.atoms))
+	for i := range l.atoms {
+		if l.coefs[i] > 0 {
+			order = append(order, i)
 		}
-		if acc == nil {
-			acc = x
-		} else {
-			acc = mk("bvadd", 64, 0, "", 0, 0, acc, x)
+	}
+	for i := range l.atoms {
+		if l.coefs[i] <= 0 {
+			order = append(order, i)
+		}
+	}
+	for _, i := range order {
+		a := l.atoms[i]
+		switch {
+		case l.coefs[i] == 1:
+			if acc == nil {
+				acc = a
+			} else {
+				acc = mk("bvadd", 64, 0, "", 0, 0, acc, a)
+			}
+		case l.coefs[i] == -1:
+			if acc == nil {
+				acc = mk("bvneg", 64, 0, "", 0, 0, a)
+			} else {
+				acc = mk("bvsub", 64, 0, "", 0, 0, acc, a)
+			}
+		default:
+			x := mk("bvmul", 64, 0, "", 0, 0, CI(l.coefs[i]), a)
+			if acc == nil {
+				acc = x
+			} else {
+				acc = mk("bvadd", 64, 0, "", 0, 0, acc, x)
+			}
 		}
 	}
 	if l.c != 0 {
@@ -1080,6 +1105,8 @@ func (m *Model) eval(t *Term, memo map[*Term]uint64) uint64 {
 		r = (a(0) - a(1)) & mask(t.W)
 	case "bvmul":
 		r = (a(0) * a(1)) & mask(t.W)
+	case "bvneg":
+		r = (-a(0)) & mask(t.W)
 	case "extract":
 		r = (a(0) >> uint(t.P2)) & mask(t.W)
 	case "zext":
